@@ -25,7 +25,7 @@ for pid in ids:
         })
 manifest = {
  "version": 1,
- "setup_cmd": "cd lean && lake build EoVerif driver",
+ "setup_cmd": "cd lean && lake build EoVerif EoVerif.Props.C20 driver",
  "hooks": {
   "guard": "EOLIB_VERIF",
   "enable": "no source hooks are needed: the harness substitutes module attributes (random source, os.walk) from outside; nothing in /repo is guarded",
